@@ -36,6 +36,10 @@ TRUSTED_COMMON = [
     'CPython str/int()/ipaddress.IPv4Address semantics are mirrored in lean/Wpull/Py/Str.lean and tied by their own '
     'differential streams (int, ipv4, strip, unidb: str.isspace and the decimal-digit table for all 0x110000 code points)',
     'Python 3.12 semantics of the interpreter that runs /repo',
+    'hypotheses of norm_idem/norm_reparse (lean/Proofs/C10Norm.lean ReparseParams, V6Params, HostPrintable), each monitored on every '
+    'case: IPv6Address(x).compressed matches [0-9a-f:.]+ and re-parses to itself; unquote(normalize_username(u)) = u and the same '
+    'for the password; non-UTF-8 codecs are character-wise, ASCII-transparent and emit no 0x20/0x2e/0x2f byte for a non-ASCII '
+    'character (cases with other codecs are skipped); idna output and host names hold no character <= 0x20',
 ]
 
 
@@ -276,7 +280,10 @@ def charwise(url, encoding, extra=''):
                 return None
             continue
         try:
-            tab.append((ch, eexc_value(ch.encode(encoding))))
+            bs = ch.encode(encoding)
+            if not bs or any(b in (0x20, 0x2e, 0x2f) for b in bs):
+                return None          # outside SegSafe / SpaceSafe: the theorems do not speak about this codec
+            tab.append((ch, eexc_value(bs)))
         except UnicodeError as e:
             tab.append((ch, eexc_value(e)))
     try:
@@ -302,7 +309,7 @@ def dedupe(pairs):
 
 
 class Case:
-    __slots__ = ('url', 'ds', 'encoding', 'kind', 'real', 'info', 'exc', 'errs', 'line', 'tags', 'skip')
+    __slots__ = ('url', 'ds', 'encoding', 'kind', 'real', 'info', 'exc', 'errs', 'line', 'tags', 'skip', 'hyp')
 
     def __init__(self, url, ds='http', encoding='utf-8', kind='gen'):
         self.url, self.ds, self.encoding, self.kind = url, ds, encoding, kind
@@ -323,7 +330,7 @@ def run_real(wu, case, op='parse'):
     """Run the real parse; fill case.real (canonical tokens), case.info, case.exc and the model request line."""
     clear_caches(wu)
     Log.idna, Log.ipv6, Log.unq = [], [], []
-    case.info, case.exc, case.errs = None, None, []
+    case.info, case.exc, case.errs, case.hyp = None, None, [], []
     try:
         with guard():
             try:
@@ -353,6 +360,7 @@ def run_real(wu, case, op='parse'):
         if enct is None:
             case.skip = True
             enct = []
+    case.hyp = monitor_params(case)
     pre = py_strip_prefix(case.url)
     lower = [(pre, [ord(c) for c in pre.lower()])] if not pre.isascii() else []
     idna = dedupe((k, eexc_value(v)) for k, v in Log.idna)
@@ -363,6 +371,41 @@ def run_real(wu, case, op='parse'):
         etable(lower), etable(idna), etable(v6), etable(unq), etable(enct))
     case.tags = tags_of(case)
     return case
+
+
+V6_FORM = re.compile(r'[0-9a-f:.]+\Z')
+
+
+def monitor_params(case):
+    """the hypotheses of norm_idem / norm_reparse (ReparseParams, V6Params, HostPrintable) on the logged calls"""
+    bad = []
+    real_v6 = _state['v6'][0]
+    for text, v in Log.ipv6:
+        if isinstance(v, str):
+            try:
+                again = real_v6(v).compressed
+            except Exception as e:
+                again = repr(e)
+            if not V6_FORM.match(v) or again != v:
+                bad.append('V6Params: IPv6Address(%r).compressed = %r, re-parsed %r' % (text, v, again))
+    for text, v in Log.idna:
+        if isinstance(v, (bytes, bytearray)) and any(b <= 0x20 for b in v):
+            bad.append('HostPrintable: idna(%r) = %r holds a control character or space' % (text, bytes(v)))
+    i = case.info
+    if i is not None and case.exc is None and getattr(i, 'scheme', None) in NET:
+        import urllib.parse
+        import wpull.url as wu
+        for name, norm in (('username', wu.normalize_username), ('password', wu.normalize_password)):
+            v = getattr(i, name)
+            try:
+                back = urllib.parse.unquote(norm(v), encoding='utf-8', errors='replace')
+            except Exception as e:
+                back = repr(e)
+            if back != v:
+                bad.append('unquote_%s: unquote(normalize(%r)) = %r' % (name[:4], v, back))
+        if any(ord(ch) <= 0x20 for ch in (i.hostname or '')):
+            bad.append('HostPrintable: host name %r' % i.hostname)
+    return bad
 
 
 def tags_of(case):
@@ -455,6 +498,8 @@ def oracle_norm(ctx, wu, case):
     except Exception:
         return                      # C11's business
     cj = case.as_json()
+    for h in getattr(case, 'hyp', []):
+        ctx.fail('hypothesis-violated', h.split(':')[0], cj, 'a parameter hypothesis of norm_idem/norm_reparse does not hold: ' + h)
     # the sentence: pure ASCII, no whitespace, no C0 control (DEL 0x7f is neither)
     bad = [c for c in n if ord(c) > 0x7f or ord(c) <= 0x20 or c.isspace()]
     if bad:
